@@ -163,6 +163,41 @@ def search(spec):
                            "path": {"k": "nil"}}, meta)
                 if hit:
                     return hit, n
+    if oracle == "C15":
+        # pairs of small schemas of one class: == must be symmetric / reflexive, != its negation, and equal
+        # schemas must give the same verdicts
+        import itertools as it
+        for cls in ("IntSchema", "StrSchema", "BoolSchema", "FloatSchema", "BytesSchema"):
+            built = []
+            for p in it.islice(schemas_for(cls), 0, 400, 7):
+                if any(v.get("k") == "fnan" for v in p.values()):
+                    continue          # NaN parameters: the listed known finding C15-nan
+                try:
+                    built.append((p, N.build_schema(cls, p)))
+                except N.Unreachable:
+                    pass
+            vals = values_for(cls)
+            for (pa, A), (pb, B) in it.product(built[:40], repeat=2):
+                n += 1
+                if n >= MAX_CASES:
+                    return None, n
+                try:
+                    bad = None
+                    if (A == B) != (B == A):
+                        bad = f"A == B is {A == B} but B == A is {B == A}"
+                    elif (A != B) == (A == B):
+                        bad = "!= is not the negation of =="
+                    elif A == B and any(N.validate(A, v).has_errors() != N.validate(B, v).has_errors() for v in vals):
+                        bad = "equal schemas give different verdicts"
+                    elif not (A == A):
+                        bad = "not reflexive"
+                    if bad:
+                        inputs = {"A": {"k": "schema", "cls": cls, "props": pa}, "B": {"k": "schema", "cls": cls, "props": pb},
+                                  "C": {"k": "schema", "cls": cls, "props": pb}}
+                        return (inputs, {"law": None}, f"{bad}: A={A!r} B={B!r}"), n
+                except Exception:
+                    continue
+        return None, n
     if oracle in ("C10", "C11") and "Schema." in q:
         cls, method = q.split(".", 1)
         if method not in ARGS:
